@@ -115,6 +115,9 @@ type Frame struct {
 	sharedAlloc map[*ssa.Alloc]bool
 	// copy-loop idioms of this function and whether the summary write was emitted this pass
 	copyStores map[*ssa.Store]*copyLoop
+	// forEachPathValue plumbing (orderedLoad)
+	eachPick func(Conj, AV) bool
+	eachOK   bool
 	edge       map[[2]int]DNF
 	blockIn    map[int]DNF
 	returns    []ReturnSite
@@ -221,6 +224,19 @@ func (f *Frame) prescan() {
 				}
 			case *ssa.UnOp, *ssa.Slice, *ssa.DebugRef:
 			case *ssa.Return, *ssa.MakeInterface:
+			case *ssa.MakeClosure:
+				// captured by a closure that only reads it: nobody else can change the cell, so this
+				// function's own loads still see its own stores
+				fn2, isFn := x.Fn.(*ssa.Function)
+				ro := isFn
+				for i, bv := range x.Bindings {
+					if bv == v && (path != "" || !isFn || i >= len(fn2.FreeVars) || !freeVarReadOnly(fn2.FreeVars[i], 0)) {
+						ro = false
+					}
+				}
+				if !ro {
+					f.escaped[a] = true
+				}
 			case *ssa.Call:
 				// handing the address to a function of the module that will be evaluated inline (its
 				// stores are then seen in this analysis) and that keeps the pointer to itself is not
@@ -939,6 +955,13 @@ func (f *Frame) step(in ssa.Instruction) {
 				ft = st.Field(x.Field).Type()
 			}
 			f.set(x, APtr{obj: p.obj, path: pathStr(p.path, x.Field), typ: ft})
+		} else if p, ok := base.(APtr); ok && p.tbl != nil && p.idx != nil {
+			st, _ := deref(x.X.Type()).Underlying().(*types.Struct)
+			var ft types.Type
+			if st != nil {
+				ft = st.Field(x.Field).Type()
+			}
+			f.set(x, APtr{tbl: p.tbl, idx: p.idx, path: pathStr(p.path, x.Field), typ: ft})
 		} else if p, ok := base.(APtr); ok && p.slice != nil && p.idx != nil {
 			// a field of an element of a slice of structs: element pointer plus field path
 			st, _ := deref(x.X.Type()).Underlying().(*types.Struct)
@@ -964,12 +987,19 @@ func (f *Frame) step(in ssa.Instruction) {
 	case *ssa.Index:
 		// index into an array value (or string): still a bounds obligation
 		f.arrayIndexOblig(x.X.Type(), x.Index, x.Pos(), x.X.Name())
+		if tbl := f.tableOfValue(x.X); tbl != nil && !tbl.isMap {
+			if k, ok := f.intVal(x.Index); ok {
+				f.set(x, f.tableValue(tbl, AInt{a: f.use(k, "index")}, "", x.Type(), x.Name()))
+				break
+			}
+		}
 		f.set(x, f.an.u.symbolic(f.key+x.Name(), x.Type()))
 	case *ssa.Slice:
 		f.sliceOp(x)
 	case *ssa.MakeSlice:
 		f.makeSlice(x)
 	case *ssa.Store:
+		f.stateAt[x] = f.cur
 		f.store(x)
 	case *ssa.Call:
 		f.set(x, f.call(x))
@@ -1002,7 +1032,15 @@ func (f *Frame) step(in ssa.Instruction) {
 		f.set(x, f.an.u.symbolic(f.key+x.Name(), x.Type()))
 	case *ssa.MakeClosure:
 		f.set(x, AFunc{x.Fn.(*ssa.Function)})
-	case *ssa.Lookup, *ssa.Range, *ssa.Next, *ssa.MakeMap, *ssa.MakeChan, *ssa.SliceToArrayPointer, *ssa.MultiConvert:
+	case *ssa.Lookup:
+		if tbl := f.tableOfValue(x.X); tbl != nil && tbl.isMap && !x.CommaOk {
+			if k, ok := f.intVal(x.Index); ok {
+				f.set(x, f.tableValue(tbl, AInt{a: f.use(k, "map key")}, "", x.Type(), x.Name()))
+				break
+			}
+		}
+		f.set(x, f.an.u.symbolic(f.key+x.Name(), x.Type()))
+	case *ssa.Range, *ssa.Next, *ssa.MakeMap, *ssa.MakeChan, *ssa.SliceToArrayPointer, *ssa.MultiConvert:
 		if v, ok := in.(ssa.Value); ok {
 			f.set(v, f.an.u.symbolic(f.key+v.Name(), v.Type()))
 		}
@@ -1315,6 +1353,16 @@ func (f *Frame) sliceOf(v ssa.Value) (ASlice, bool) {
 }
 
 func (f *Frame) indexAddr(x *ssa.IndexAddr) {
+	if tbl := f.tableOfValue(x.X); tbl != nil {
+		if idx, ok := f.intVal(x.Index); ok {
+			i := f.use(idx, "index")
+			f.oblig("index", x.Pos(), fmt.Sprintf("index %s[%s] with len %d", tbl.g.Name(), i.String(), tbl.n),
+				Conj{atomGE(i, affConst(0)), atomLT(i, affConst(tbl.n))}, nil)
+			ai := AInt{a: i}
+			f.set(x, APtr{tbl: tbl, idx: &ai, typ: deref(x.Type())})
+			return
+		}
+	}
 	s, ok := f.sliceOf(x.X)
 	idx, iok := f.intVal(x.Index)
 	if !ok || !iok {
@@ -1466,6 +1514,9 @@ func (f *Frame) load(x *ssa.UnOp) AV {
 			return f.an.u.symbolic("global:"+g.g.String(), x.Type())
 		}
 		return f.an.u.symbolic(f.key+x.Name(), x.Type())
+	}
+	if p.tbl != nil && p.idx != nil {
+		return f.tableValue(p.tbl, *p.idx, p.path, x.Type(), x.Name())
 	}
 	if p.slice != nil && p.idx != nil && p.path != "" {
 		// field of an element of a slice of structs: for input memory that nothing wrote to, a
@@ -1888,6 +1939,17 @@ func (f *Frame) orderedLoad(o *Obj, path string, at ssa.Instruction) (AV, bool) 
 		}
 		return nil, false
 	}
+	if f.eachPick != nil {
+		// a rule asks for the governing value of every path separately (forEachPathValue)
+		f.eachOK = true
+		for _, cj := range cur {
+			v, got := pickFor(cj)
+			if !got || !f.eachPick(cj, v) {
+				f.eachOK = false
+			}
+		}
+		return nil, false
+	}
 	for _, c := range cs {
 		definite := !c.rec.approx
 		for _, cj := range cur {
@@ -2253,7 +2315,10 @@ func passesBetween(a, s ssa.Instruction) bool {
 // value where it is assigned exactly once, before the load, and neither the function nor any
 // closure that captures the cell ever stores to it again or hands its address on.
 func (f *Frame) capturedConstant(o *Obj, path string, at ssa.Instruction) (AV, bool) {
-	if o.alloc == nil || at == nil || o.alloc.Parent() != at.Parent() {
+	if o.alloc == nil || at == nil {
+		return nil, false
+	}
+	if o.alloc.Parent() != at.Parent() && path == "" {
 		return nil, false
 	}
 	if path != "" {
@@ -2365,7 +2430,7 @@ func (f *Frame) immutableFieldOfEscaped(o *Obj, path string, at ssa.Instruction)
 			}
 		}
 	}
-	if n != 1 || !instrBefore(only, at) {
+	if n != 1 {
 		return nil, false
 	}
 	key := path
@@ -2375,7 +2440,16 @@ func (f *Frame) immutableFieldOfEscaped(o *Obj, path string, at ssa.Instruction)
 	var val AV
 	seq := -1
 	for _, rc := range o.stores[key] {
-		if rc.instr == ssa.Instruction(only) && rc.frame == f && rc.seq > seq {
+		if rc.instr != ssa.Instruction(only) || rc.seq <= seq {
+			continue
+		}
+		// the construction happened before the load: in the same function by dominance, from an
+		// inlined callee (a forwarding method reading the field) by the structural relation
+		before := rc.frame == f && instrBefore(only, at)
+		if !before && only.Parent() != at.Parent() {
+			before = f.executedBefore(o, rc, at)
+		}
+		if before {
 			val, seq = rc.val, rc.seq
 		}
 	}
@@ -2543,4 +2617,56 @@ func (f *Frame) loadShared(o *Obj, path string, t types.Type, at ssa.Instruction
 		}
 	}
 	return f.an.u.symbolic(f.key+fmt.Sprintf("multi:%s%s@%s", o.key, path, valueName(at)), t)
+}
+
+// freeVarReadOnly: the closure (and closures it creates) only load from the captured cell.
+func freeVarReadOnly(v ssa.Value, depth int) bool {
+	refs := v.Referrers()
+	if refs == nil {
+		return true
+	}
+	if depth > 4 {
+		return false
+	}
+	for _, r := range *refs {
+		switch x := r.(type) {
+		case *ssa.UnOp:
+			if x.Op != token.MUL {
+				return false
+			}
+			// the loaded value itself may be a pointer that is written through; only single-word
+			// non-pointer-to-struct cells are of interest to the callers of this predicate
+		case *ssa.DebugRef:
+		case *ssa.MakeClosure:
+			f2, ok := x.Fn.(*ssa.Function)
+			if !ok {
+				return false
+			}
+			for i, bv := range x.Bindings {
+				if bv == v && (i >= len(f2.FreeVars) || !freeVarReadOnly(f2.FreeVars[i], depth+1)) {
+					return false
+				}
+			}
+		default:
+			return false
+		}
+	}
+	return true
+}
+
+// forEachPathValue evaluates, for every disjunct of state st, the value that a load of o.path at
+// `at` would see on that path (its governing store, as in disjunctLoad) and reports whether
+// check holds for all of them; false when some path's value cannot be determined.
+func (f *Frame) forEachPathValue(o *Obj, path string, at ssa.Instruction, st DNF, check func(Conj, AV) bool) bool {
+	if len(o.stores[path]) == 0 && !f.hasPrefixStores(o, path) {
+		return false
+	}
+	save := f.cur
+	f.cur = st
+	f.eachPick, f.eachOK = check, false
+	f.orderedLoad(o, path, at)
+	ok := f.eachOK
+	f.eachPick = nil
+	f.cur = save
+	return ok
 }
